@@ -682,7 +682,9 @@ func judgePost(cc *checkCtx, fn *ssa.Function, ct *Contract, o *Obligation, para
 	env := &Env{u: u, vars: map[string]TV{}, bound: map[string]string{}, lets: map[string]*Expr{}}
 	for _, g := range cc.cs.Ghosts {
 		for _, gd := range g {
-			env.vars[gd.Name] = TV{u.Const("g0."+gd.Name, gd.Sort), gd.Sort}
+			if u.sortKnown(gd.Sort) {
+				env.vars[gd.Name] = TV{u.Const("g0."+gd.Name, gd.Sort), gd.Sort}
+			}
 		}
 	}
 	var decl []string
@@ -725,7 +727,7 @@ func judgePost(cc *checkCtx, fn *ssa.Function, ct *Contract, o *Obligation, para
 	case "sat":
 		return "the real function's outputs satisfy the clause on the candidate input; the candidate came from the abstraction", false
 	}
-	return "ground evaluation of the clause was inconclusive (" + r.Status + ")", false
+	return "ground evaluation of the clause was inconclusive (" + r.Status + " " + firstLine(r.Output) + ")", false
 }
 
 // runOverlayTest runs an in-package test injected through -overlay; nothing is written into the repository.
